@@ -211,6 +211,19 @@ def oracle_c09(program, po, so):
                             pass
                         except Exception as e:  # noqa: BLE001
                             diffs.append(dict(kind="unreachable_reference_wrong_exception", stmt=st["id"], op="export", backend=be, ref=[tid, n], exc=P.exc_class(e)))
+                        # … and inside a join condition: ValueError (the column is not derivable any more), never resolved to something else
+                        try:
+                            src0 = next(iter(env.tables.values()))
+                            G = src0 >> pdt.alias("probe_g")
+                            gcol = G[next(iter(G._cache.name_to_uuid))]
+                            F >> pdt.join(G, ref.is_null() == gcol.is_null(), how="inner")
+                            diffs.append(dict(kind="unreachable_reference_accepted_in_join_on", stmt=st["id"], op="export", backend=be, ref=[tid, n]))
+                        except (ValueError, ColumnNotFoundError):
+                            pass
+                        except Exception as e:  # noqa: BLE001
+                            if P.exc_class(e) not in ("SubqueryError", "TypeError"):
+                                diffs.append(dict(kind="unreachable_reference_wrong_exception_in_join_on", stmt=st["id"], op="export", backend=be, ref=[tid, n],
+                                                  exc=P.exc_class(e), msg=str(e)[:120]))
             # C.name denotes whichever column carries the name now
             for n, u in list(F._cache.name_to_uuid.items())[:2]:
                 try:
